@@ -273,12 +273,17 @@ def run(ctx: Ctx) -> None:
         ctx.cov["getLines_calls_traced"] = len(tr.cut)
         ctx.cov["code_spans_traced"] = len(tr.spans)
         ctx.cov["hr_calls_traced"] = len(tr.hrs)
+        # tie of the modelled block sub-parser (mini_verbatim is a theorem about exactly this model)
+        from . import miniblock
+        miniblock.tie(ctx, drv, 2500 if quick else 60000)
     finally:
         drv.close()
     ctx.partial += [
-        "that code_block/fence/html_block content *is* the stated getLines call, and fence/heading/list markup the scanned run, "
-        "is by transcription of those rules (not yet modelled in Lean): decided by the oracle; the getLines, code-span and hr "
-        "statements are theorems",
+        "that code_block / fence content *is* the stated getLines call on the lines of its map, that fence markup + info is the "
+        "opening line's text and hr markup the scanned run is PROVED for the modelled sub-parser (Props/C08b.lean mini_verbatim, "
+        "with cutOf_spec from cutLine_spec; model tied by the `miniblock` differential runs). For html_block, heading/list/quote "
+        "markup, ordered-list start/info and for code/fence inside containers (rules not modelled) it is decided by the oracle; "
+        "the getLines, code-span and hr statements are theorems",
     ]
 
 
